@@ -96,6 +96,13 @@ theorem rep_is_seeded_run (how : How) (o : Obj Row) (w : World) (hn : 1 < o.nrep
   have h1 : ¬ o.nrep = 1 := by omega
   simp [h1, hn, table_isEmpty sim o.nrep hn]
 
+/-- the repetition count is a public attribute: after `S.Nrep = n` on an object in any
+state (e.g. after a LARGER study) a run gives exactly the `n` rows of the seeded runs -/
+theorem rep_after_resize (how : How) (o : Obj Row) (w : World) (n : Nat) (hn : 1 < n)
+    (hv : ValidHow n how) :
+    results (runObj sim how { o with nrep := n } w).1 = .ok (table sim n) :=
+  rep_is_seeded_run sim how { o with nrep := n } w hn hv
+
 /-- **single_eq_rep0**: with `Nrep = 1`, `results` is the one row of the run with
 seed 0 — the first row of every multi-repetition table. -/
 theorem single_eq_rep0 (how : How) (o : Obj Row) (w : World) (h1 : o.nrep = 1) (n : Nat) (hn : 0 < n) :
